@@ -106,15 +106,76 @@ structure Proto where
   lost : Bool := false                    -- ghost: `connectionLost` has been delivered
   deriving Repr, Inhabited
 
-/-- the six per-address containers of the factory -/
-structure AddrState where
-  queue : List Nat := []          -- queuePublishTx: request ids, oldest first
-  winPub : Dict Nat := []         -- windowPublish: msgId ↦ request id
-  winRel : Dict Nat := []         -- windowPubRelease
-  winRx : Dict RxMsg := []        -- windowPubRx
-  winSub : Dict Nat := []         -- windowSubscribe
-  winUnsub : Dict Nat := []       -- windowUnsubscribe
+/-- which of the factory's per-address containers an entry sits in -/
+inductive Box where
+  | queue      -- queuePublishTx[addr]
+  | pub        -- windowPublish[addr]
+  | rel        -- windowPubRelease[addr]
+  | sub        -- windowSubscribe[addr]
+  | unsub      -- windowUnsubscribe[addr]
+  deriving DecidableEq, Repr, Inhabited
+
+/-- one entry of one container of one address: `container[addr][key] = request` (for the queue the key
+    is unused). All containers of all addresses live in ONE list, in insertion order; a container is
+    the sub-list of its entries, so Python's per-dict insertion order (which `_syncSession` and the loss
+    handling iterate) is the order of that sub-list. -/
+structure Ent where
+  addr : Nat
+  box : Box
+  key : Nat
+  rid : Nat
+  deriving DecidableEq, Repr, Inhabited
+
+namespace Ents
+/-- `container[addr].get(key)` -/
+def lookup : List Ent → Nat → Box → Nat → Option Nat
+  | [], _, _, _ => none
+  | e :: r, a, b, k => if e.addr = a ∧ e.box = b ∧ e.key = k then some e.rid else lookup r a b k
+
+/-- `container[addr][key] = rid`: overwrite in place or append -/
+def insert : List Ent → Nat → Box → Nat → Nat → List Ent
+  | [], a, b, k, rid => [⟨a, b, k, rid⟩]
+  | e :: r, a, b, k, rid => if e.addr = a ∧ e.box = b ∧ e.key = k then ⟨a, b, k, rid⟩ :: r else e :: insert r a b k rid
+
+/-- `del container[addr][key]` -/
+def remove : List Ent → Nat → Box → Nat → List Ent
+  | [], _, _, _ => []
+  | e :: r, a, b, k => if e.addr = a ∧ e.box = b ∧ e.key = k then r else e :: remove r a b k
+
+/-- the entries of one container of one address, in order -/
+def items : List Ent → Nat → Box → List Ent
+  | [], _, _ => []
+  | e :: r, a, b => if e.addr = a ∧ e.box = b then e :: items r a b else items r a b
+
+/-- `len(container[addr])` -/
+def count (es : List Ent) (a : Nat) (b : Box) : Nat := (items es a b).length
+
+/-- `queuePublishTx[addr].popleft()`: the list without the first queue entry of the address -/
+def dropFirst : List Ent → Nat → Box → List Ent
+  | [], _, _ => []
+  | e :: r, a, b => if e.addr = a ∧ e.box = b then r else e :: dropFirst r a b
+end Ents
+
+/-- one entry of `windowPubRx[addr]` -/
+structure RxEnt where
+  addr : Nat
+  key : Nat
+  msg : RxMsg
   deriving Repr, Inhabited
+
+namespace Rx
+def lookup : List RxEnt → Nat → Nat → Option RxMsg
+  | [], _, _ => none
+  | e :: r, a, k => if e.addr = a ∧ e.key = k then some e.msg else lookup r a k
+
+def insert : List RxEnt → Nat → Nat → RxMsg → List RxEnt
+  | [], a, k, m => [⟨a, k, m⟩]
+  | e :: r, a, k, m => if e.addr = a ∧ e.key = k then ⟨a, k, m⟩ :: r else e :: insert r a k m
+
+def remove : List RxEnt → Nat → Nat → List RxEnt
+  | [], _, _ => []
+  | e :: r, a, k => if e.addr = a ∧ e.key = k then r else e :: remove r a k
+end Rx
 
 inductive TKind where
   | connack (cr : Nat)                    -- `connectError` closure of CONNECT request `cr`
@@ -168,7 +229,8 @@ inductive Obs where
 structure World where
   profile : Nat := 3
   nextId : Nat := 0                -- factory.id
-  addrs : Dict AddrState := []
+  ents : List Ent := []             -- queuePublishTx / windowPublish / windowPubRelease / windowSubscribe / windowUnsubscribe
+  rx : List RxEnt := []             -- windowPubRx
   protos : Dict Proto := []
   nextProto : Nat := 0
   reqs : Dict Req := []
